@@ -41,8 +41,12 @@ def generate(rng, tier):
                 span = xs[-1] - xs[0]
                 qs = list(qs)
                 qs[0], qs[2] = xs[-1] + span, xs[0] - span * 2
+                if S == "F" and rng.random() < 0.5:
+                    qs[rng.choice([0, 2])] = rng.choice([float("nan"), float("inf"), float("-inf")])
                 if rng.random() < 0.5:
                     qs[0], qs[1] = qs[1], qs[0]
+                if rng.random() < 0.3:
+                    qs[0], qs[3] = qs[3], qs[0]     # the first element is fine, the rejected ones come later
             for qtag in ("sta", "dyn"):
                 for ent in ("array", "ainto"):
                     e = e_array(S, [len(qs)], qs, qtag=qtag, lay=ql) if ent == "array" else e_ainto(S, [len(qs)], [len(qs)] + shape[1:], qs, qtag=qtag, lay=ql, blay="w")
@@ -65,6 +69,13 @@ def generate(rng, tier):
                 qx, qy = list(qx), list(qy)
                 qy[0] = ys[-1] + (ys[-1] - ys[0])
                 qx[2] = xs[0] - (xs[-1] - xs[0]) * 2
+                if S == "F" and rng.random() < 0.5:
+                    if rng.random() < 0.5:
+                        qy[0] = float("nan")
+                    else:
+                        qx[2] = rng.choice([float("nan"), float("inf")])
+                if rng.random() < 0.4:
+                    qx[0], qx[1] = qx[1], qx[0]; qy[0], qy[1] = qy[1], qy[0]   # a good first element, rejected ones later
             for qtag in ("sta", "dyn"):
                 cases.append({"line": i2_line(S, xs, ys, shape, flat, False, e_array(S, [len(qx)], qx, qy, qtag=qtag, lay=ql),
                                               dtag=rng.choice(["sta", "dyn"])), "meta": {"oob": oob}})
